@@ -98,10 +98,11 @@ def flags_case(draw):
       if base == 'base_a':
         path = draw(st.sampled_from([[['a', 'a']], [['a', 'b'], ['a', 'y']], [['a', 'b'], ['a', 'x']], [['a', 'c'], ['k', 'k']],
                                      [['a', 'c'], ['k', 'sub'], ['a', 'y']], [['a', 'd'], ['i', 1]], [['a', 'd'], ['i', 0], ['a', 'child']],
-                                     [['a', 'e']], [['a', 'b']], [['a', 'c'], ['k', 'new key']]]))
+                                     [['a', 'e']], [['a', 'b']], [['a', 'c'], ['k', 'new key']],
+                                     [['a', 'e'], ['i', 0]], [['a', 'e'], ['i', 1]]]))
       else:
         path = draw(st.sampled_from([[['a', 'x']], [['a', 'y']], [['a', 'child'], ['a', 'a']], [['a', 'child'], ['a', 'c']],
-                                     [['a', 'child']]]))
+                                     [['a', 'child']], [['a', 'child'], ['i', 0]]]))
       ds.append({'d': 'set', 'path': path, 'lit': _enc_lit(draw(_literal))})
     else:
       name = draw(st.sampled_from(sorted(flagsmod.FIDDLERS)))
@@ -112,6 +113,13 @@ def flags_case(draw):
           args = [lit]
         else:
           kw = {{'set_y': 'value', 'append_marker': 'marker', 'with_first': 'value'}[name]: lit}
+      if name == 'store_items':
+        # a mutable literal argument; the same expression text tends to recur within and across cases
+        lit = _enc_lit(draw(st.sampled_from([[4, 4], [1, 2, 3], [0], []])))
+        if draw(st.booleans()):
+          args = [lit]
+        else:
+          kw = {'items': lit}
       ds.append({'d': 'fiddler', 'name': name, 'args': args, 'kw': kw})
   cuts = sorted(draw(st.lists(st.integers(0, len(ds)), max_size=2)))
   return {'kind': 'flags', 'base': base, 'bargs': bargs, 'bkw': bkw, 'via_str': via_str, 'ds': ds, 'cuts': cuts}
@@ -359,7 +367,7 @@ def check_flags(case, out):
     except Exception as e:  # pylint: disable=broad-except
       ref_err = e
   noncomm = 'set' in kinds and any(k in kinds for k in ('fiddler:double_first', 'fiddler:set_y', 'fiddler:with_first',
-                                                        'fiddler:append_marker'))
+                                                        'fiddler:append_marker', 'fiddler:store_items'))
   if noncomm:
     out.cls('noncommuting')
   out.nontrivial = noncomm
